@@ -394,7 +394,9 @@ fn random_case(cx: &mut CaseCtx, input: Input, cfg: &crate::gen::GenCfg) -> Case
             _ => {
                 let (path, _kind) = victims[pick(&mut u, victims.len())].clone();
                 if let Some(pre) = crate::c16::victim_prelude(&mut p1, &path) {
-                    pre.attrs.push(AttrM::new("allow", &args));
+                    // before or after the attributes the element has already (`[deprecated]` among them)
+                    let at = if pick(&mut u, 2) == 0 { 0 } else { pre.attrs.len() };
+                    pre.attrs.insert(at, AttrM::new("allow", &args));
                     placed.push(format!("{path}:{}", args.join("+")));
                 }
             }
@@ -423,8 +425,15 @@ fn random_case(cx: &mut CaseCtx, input: Input, cfg: &crate::gen::GenCfg) -> Case
         cx.label("random/with-an-erroneous-attribute");
     }
     cx.set_key(&(&p1, &cli));
-    let (texts0, _r0) = crate::c02::render_layout(&p0, lay_bytes, 1);
-    let (texts1, rendered1) = crate::c02::render_layout(&p1, lay_bytes, 1);
+    let (mut texts0, _r0) = crate::c02::render_layout(&p0, lay_bytes, 1);
+    let (mut texts1, rendered1) = crate::c02::render_layout(&p1, lay_bytes, 1);
+    // now and then one more file, last, that declares no module: nothing is suppressed differently for it
+    if pick(&mut u, 4) == 3 {
+        let blank = ["", "// no module in this file\n", "\n\n"][pick(&mut u, 3)];
+        texts0.push(blank.to_owned());
+        texts1.push(blank.to_owned());
+        cx.label("random/with-a-module-less-file");
+    }
     cx.sample_with(|| json!({"files": texts1, "allow_on_command_line": cli, "suppressions": placed}));
     if std::env::var_os("VCHECK_NO_COMPILE").is_some() {
         return Ok(());
@@ -531,6 +540,56 @@ fn random_case(cx: &mut CaseCtx, input: Input, cfg: &crate::gen::GenCfg) -> Case
     let mut s0 = observed0;
     strip_allow(&mut s0);
     check!(s1 == s0, "random/suppression-changed-ast", "the AST differs by more than the added attributes\n{}", src());
+    Ok(())
+}
+
+// ---- members of one operation that share a name --------------------------------------------------------
+
+pub const MEMBER_NAMES_TOTAL: u64 = 5 * 6 * 2;
+
+/// A parameter and a return member of one operation may have the same name, and a parameter may be named
+/// like the compiler's placeholder for an unnamed return type (`returnValue`).  A suppression on one of
+/// them is in scope for that one only.
+fn member_names_case(cx: &mut CaseCtx, input: Input) -> CaseResult {
+    let i = input.index() as usize;
+    let shape = i % 5;
+    let placement = (i / 5) % 6; // none, parameter, return member, both, operation, the other parameter
+    let arg = ["Deprecated", "All"][(i / 30) % 2];
+    let al = format!("[allow({arg})] ");
+    let on = |want: &[usize]| if want.contains(&placement) { al.as_str() } else { "" };
+    let (p, r, o, x) = (on(&[1, 3]), on(&[2, 3]), on(&[4]), on(&[5]));
+    // D1 is used by the parameter, D2 by the return member (or the unnamed return type)
+    let (op, has_named_return) = match shape {
+        0 => (format!("{o}op({p}a: D1, {x}z: bool) -> ({r}a: D2, b: bool)"), true),
+        1 => (format!("{o}op({x}z: bool, {p}a: D1) -> (b: bool, {r}a: D2)"), true),
+        2 => (format!("{o}op({p}a: Sequence<D1>, {x}z: bool) -> ({r}a: Dictionary<string, D2>, b: bool)"), true),
+        3 => (format!("{o}op({p}returnValue: D1, {x}z: bool) -> D2"), false),
+        _ => (format!("{o}op({p}returnValue: D1?, {x}z: bool) -> Sequence<D2>"), false),
+    };
+    let text = format!("module M\n[deprecated] struct D1 {{}}\n[deprecated] struct D2 {{}}\ninterface I {{\n    {op}\n}}\n");
+    cx.nontrivial = placement != 0;
+    cx.label(format!("member-names/shape-{shape}"));
+    cx.label(format!("member-names/placement-{placement}"));
+    cx.sample_with(|| json!({"file": text}));
+    let opts = SliceOptions::default();
+    let state = compile_strings(&[text.clone()], Some(&opts));
+    let ds = diagnostics_of(state, &opts);
+    check!(!ds.iter().any(|d| d.level == "error"), "template-does-not-compile", "{}\n{text}", summarize(&ds));
+    for (who, message, silenced) in [
+        ("parameter", "'D1' is deprecated", matches!(placement, 1 | 3 | 4)),
+        ("return", "'D2' is deprecated", placement == 4 || (has_named_return && matches!(placement, 2 | 3))),
+    ] {
+        let hits: Vec<&DiagObs> = ds.iter().filter(|d| d.code == "Deprecated" && d.message.starts_with(message)).collect();
+        check!(hits.len() == 1, format!("member-names/lint-count/{who}"), "{} lints for {message}:\n{}\n{text}", hits.len(), summarize(&ds));
+        let want = if silenced { "allowed" } else { "warning" };
+        check!(
+            hits[0].level == want,
+            format!("member-names/{}/{who}", if silenced { "not-silenced" } else { "wrongly-silenced" }),
+            "the lint of the {who} has level {} (expected {want})\n{}\n{text}",
+            hits[0].level,
+            summarize(&ds)
+        );
+    }
     Ok(())
 }
 
@@ -820,6 +879,7 @@ impl Check for C13 {
             Family::enumerate("errors", 30, 1, errors_case),
             Family::enumerate("binary", 36, 1, binary_case),
             Family::enumerate("request-delta", 21, 1, request_delta_case),
+            Family::enumerate("member-names", MEMBER_NAMES_TOTAL, 1, member_names_case),
         ]
     }
 }
